@@ -196,6 +196,7 @@ func initProperties() {
 			Decides: "for every function of both protocols, both generic packages and the four converters, in both build configurations: every cursor loop consumes input or leaves (LOOPPROGRESS), no input-derived count sizes an allocation unbounded (ALLOCBOUND), size-guarded functions never get a non-positive size (PANICARG), descriptor lookups on input-derived ids are nil-checked (NILLOOKUP), input-driven recursion carries a depth budget (RECDEPTH), no decoder error is dropped or swallowed (DROPERR, ERRSWALLOW).",
 			NotDec:  "out-of-bounds reads through unsafe in general (only the scalar casts of thrift/generic are tied to the node length, RAWWIDTH; header peeks of iterators and of the protobuf side need value ranges), panics inside sonic or the native blob, wall-clock bounds.",
 			Uses: uses(
+				use("REGIONEXACT", "a packed list / embedded message is walked exactly to the end of its payload", nil),
 				use("KNOWNNILARG", "no nil probe result is passed on as a value", nil),
 				use("DEPTHBUDGET", "the recursion budget is decremented once per level", nil),
 				use("RESULTUSED", "a re-allocated buffer is not dropped", nil),
@@ -242,6 +243,7 @@ func initProperties() {
 			Decides: "unknown field numbers in the message cannot crash reads (NILLOOKUP over proto/generic), kind/wire-type/packedness tables match the protobuf spec (KINDTABLE — they drive every skip), errors propagate (DROPERR, ERRSWALLOW), search loops consume (LOOPPROGRESS), unknown fields are skipped (UNKNOWNSKIP).",
 			NotDec:  "positions/values, packed/unpacked boundaries, empty sub-messages.",
 			Uses: uses(
+				use("COUNTERRESET", "a scan counts a container's elements from zero", protoGeneric),
 				use("NEXTSTOREBACK", "a refill stores the children back on every success path", protoGeneric),
 				use("TAGPOS", "locators hand out tag positions", nil),
 				use("TYPESWITCHAGREE", "unhashable map keys are boxed before use", protoGeneric),
@@ -285,6 +287,7 @@ func initProperties() {
 			Decides: "balanced JSON on every success path of p2j (JSONPAIR), every legal map-key kind is quoted (MAPKEYQUOTE), unsigned kinds are not routed through a signed formatter (SIGNCONV), the kind switch covers the 15 scalar kinds + MESSAGE (KINDEXH), list/map loops consume and stop on errors (LOOPPROGRESS, DROPERR), unknown = error iff disallowed (NEGPOLARITY).",
 			NotDec:  "float exactness, comma placement.",
 			Uses: uses(
+				use("REGIONEXACT", "a packed list / embedded message is walked exactly to the end of its payload", nil),
 				use("KEYSRC", "object members are keyed by the JSON name at every nesting level", inPkgs("conv/p2j")),
 				use("OPTPRESENCE", "[packed = false] is read only where the option is present", nil),
 				use("KINDNAME", "each kind's clause calls the primitive named after that kind (signedness / width)", nil),
@@ -340,6 +343,8 @@ func initProperties() {
 			Decides: "inserted tags carry a real wire type and map entries key=1/value=2 (TAGTYPE, MAPTAG), speculative lengths are finished on every path of PathNode.marshal (SPECLENPAIR), name->number translation is nil-checked (NILLOOKUP), insertion/tag errors propagate (DROPERR), the delete locator has a not-found exit (NOTFOUNDEXIT).",
 			NotDec:  "updateByteLen ancestor-length arithmetic.",
 			Uses: uses(
+				use("WIREDISPATCH", "no value is encoded by its wire type alone (zig-zag / signedness come from the kind)", nil),
+				use("COUNTERRESET", "a scan counts a container's elements from zero", protoGeneric),
 				use("COPYZERO", "SetMany's scratch copy really copies", protoGeneric),
 				use("RESULTUSED", "a re-allocated buffer is not dropped", anyOf(protoGeneric, protoBinary)),
 				use("ENTRYLEN", "an edit inside a map value re-writes the map entry's length prefix", nil),
@@ -562,6 +567,9 @@ func initProperties() {
 			Decides: "per kind, the descriptor-driven reader and writer use inverse wire primitives matching the spec incl. zig-zag (RWPAIR), unrolled varint stages follow the template (VARINTTEMPLATE), kind/wire tables = spec (KINDTABLE), option/flag arguments are passed in parameter order (ARGSWAP), map entries key=1/value=2 (MAPTAG), speculative lengths finished and writer errors propagated in WriteList/WriteMap/WriteMessageFields (SPECLENPAIR, DROPERR), no size panics (PANICARG).",
 			NotDec:  "byte-identity with the reference encoder.",
 			Uses: uses(
+				use("LENZERO", "an empty embedded message is a present value, not nil and not an error", protoBinary),
+				use("WIREDISPATCH", "no value is encoded by its wire type alone (zig-zag / signedness come from the kind)", nil),
+				use("REGIONEXACT", "a packed list / embedded message is walked exactly to the end of its payload", nil),
 				use("KINDNAME", "each kind's clause calls the primitive named after that kind (signedness / width)", nil),
 				use("RWPAIR", "reader/writer symmetric", nil),
 				use("UNSIGNEDWIDEN", "unsigned 32-bit kinds are not sign-extended", nil),
